@@ -533,6 +533,7 @@ func init() {
 	registerJSON()
 	registerRegexp()
 	registerReflect()
+	registerReflectValue()
 	registerMisc()
 }
 
